@@ -271,7 +271,8 @@ def run(ctx):
                 ops.append(f"zone.resolve {sid} {l}")
         day = ((tr + w1 * NPS) // NPD) * NPD
         for d in (-1, 0, 1):
-            ops.append(f"zone.startofday {sid} {day + d * NPD}")
+            cal = rng.choice([0, 0, 1, 2, 3]) if -600000 * NPD <= day <= 1500000 * NPD else 0
+            ops.append(f"zone.startofday {sid} {day + d * NPD} {cal}" if cal else f"zone.startofday {sid} {day + d * NPD}")
         for d in (-1, 0, 1, -NPS, NPS):
             if MINI <= tr + d <= MAXI:
                 rt_cases.append((sid, tr + d))
